@@ -1473,9 +1473,26 @@ func ScriptOpt(asserts []*Term, getVals []*Term, opaque map[string]bool, unfoldO
 						}
 						conds = append(conds, Eq(a.Args[pi], b.Args[pi]))
 					}
+					skip := false
 					for si, sl := range fd.ArrSlots {
+						// byte strings of constant length written as store chains: compare element by element
+						if ea, ok := storeChainElems(a.Args[sl[0]], a.Args[sl[1]]); ok {
+							if eb, ok2 := storeChainElems(b.Args[sl[0]], b.Args[sl[1]]); ok2 {
+								if len(ea) != len(eb) {
+									skip = true // different lengths: the strings differ, nothing to state
+									break
+								}
+								for i := range ea {
+									conds = append(conds, Eq(ea[i], eb[i]))
+								}
+								continue
+							}
+						}
 						k0 := Var(fmt.Sprintf("ext!%d!%d!%d", a.id, b.id, si), BV(64))
 						conds = append(conds, Imp(BvUlt(k0, a.Args[sl[1]]), Eq(Select(a.Args[sl[0]], k0), Select(b.Args[sl[0]], k0))))
+					}
+					if skip {
+						continue
 					}
 					inst := Imp(And(conds...), Eq(a, b))
 					if !inst.IsTrue() {
@@ -1737,4 +1754,35 @@ func DefArr(w int, k *Term, body *Term) *Term {
 	TB.varAxioms[a.Name] = Forall([]*Term{ck}, Eq(TB.mk(&Term{Op: OSelect, S: BV(w), Args: []*Term{a, ck}}), cb))
 	TB.defBodies[a.Name] = defBody{ck, cb}
 	return a
+}
+
+// storeChainElems recognises store(...store((as const 0), 0, e0)..., n-1, e_{n-1}) with constant length n
+// and returns e0..e_{n-1}.
+func storeChainElems(arr, ln *Term) ([]*Term, bool) {
+	if !ln.IsConst() || !ln.Val.IsInt64() || ln.Val.Int64() > 4096 {
+		return nil, false
+	}
+	n := int(ln.Val.Int64())
+	elems := make([]*Term, n)
+	t := arr
+	for t.Op == OStore {
+		idx := t.Args[1]
+		if !idx.IsConst() || !idx.Val.IsInt64() {
+			return nil, false
+		}
+		i := int(idx.Val.Int64())
+		if i >= 0 && i < n && elems[i] == nil {
+			elems[i] = t.Args[2]
+		}
+		t = t.Args[0]
+	}
+	if t.Op != OConstArr {
+		return nil, false
+	}
+	for i := range elems {
+		if elems[i] == nil {
+			elems[i] = t.Args[0]
+		}
+	}
+	return elems, true
 }
